@@ -46,3 +46,43 @@ Theorem C13_timestamps_monotone : forall c src k,
   /\ r_samples (snd (run_core c k src)) = r_samples k + N.of_nat (length src).
 Proof. exact timestamps_monotone. Qed.
 Print Assumptions C13_timestamps_monotone.
+
+(** link events follow the carrier lifecycle, for EVERY item stream from a new receiver:
+    no carrier -> searching -> {reading, no carrier}; reading -> burst; burst -> no carrier;
+    and the one extra edge burst -> searching (known finding F7).  [link_chain] walks the event
+    list and checks each link event against the kind of the previous one. *)
+From Sameold Require Import Proofs.LifecycleP.
+Theorem C13_link_events_follow_lifecycle : forall c src,
+  max_prefix_bit_errors (fc c) <= 7 ->
+  link_chain Kn (fst (run_core c core_init src)).
+Proof. exact link_events_follow_lifecycle. Qed.
+Print Assumptions C13_link_events_follow_lifecycle.
+
+(** the automaton, spelled out: exactly these edges between consecutive link states *)
+Theorem C13_lifecycle_edges :
+  forall a b, edge_ok a b = true <->
+    (a = Kn /\ (b = Kn \/ b = Ks)) \/ (a = Ks /\ (b = Ks \/ b = Kr \/ b = Kn))
+    \/ (a = Kr /\ (b = Kr \/ b = KB)) \/ (a = KB /\ (b = Kn \/ b = Ks)).
+Proof.
+  intros a b. split.
+  - destruct a, b; cbn; intros H; try discriminate; tauto.
+  - intros [[-> [->| ->]]|[[-> [->|[->| ->]]]|[[-> [->| ->]]|[-> [->| ->]]]]]; reflexivity.
+Qed.
+Print Assumptions C13_lifecycle_edges.
+
+(** while a burst is being read the squelch is locked and cannot re-synchronise: the next link
+    state is reading or burst *)
+Theorem C13_no_resync_while_reading : forall c s f t l s' f' u m i,
+  max_prefix_bit_errors (fc c) <= 7 ->
+  f = FDataRead m i -> locked_while_reading s f ->
+  linklayer_symbol c s f t = (l, s', f', u) ->
+  kind_of l = Kr \/ kind_of l = KB.
+Proof. exact no_resync_while_reading. Qed.
+Print Assumptions C13_no_resync_while_reading.
+
+(** KNOWN FINDING F7: the edge burst -> searching does occur (a preamble bit pattern that slips
+    by one bit during the burst re-synchronises the squelch on the symbol after the burst ended) *)
+Theorem C13_F7_refuted :
+  link_kinds (fst (run_core f7_cfg core_init f7_items)) = [(32, Ks); (64, Kr); (120, KB); (121, Ks)].
+Proof. exact F7_burst_then_searching. Qed.
+Print Assumptions C13_F7_refuted.
